@@ -159,6 +159,9 @@ bool Action::stop() {
   if (timer_ev_ != nullptr)
     timer_ev_->disable();
 
+  //! 撤消已派发但还未执行的阻塞通知，停止后不应再有回调
+  cancelDispatchedCallback();
+
   is_base_func_invoked_ = false;
 
   onStop();
@@ -291,6 +294,9 @@ void Action::onBlock(const Reason &why, const Trace &trace) {
   if (block_cb_) {
     Trace new_trace(trace);
     new_trace.emplace_back(id_, type_, label_);
+    //! 之前派发的阻塞通知如果还没执行，则由新的通知取代，保证它总能被 reset()/stop() 撤消
+    if (block_cb_run_id_ != 0)
+      loop_.cancel(block_cb_run_id_);
     block_cb_run_id_ = loop_.runNext(std::bind(block_cb_, why, new_trace),
                                      std::string("Action::block") + ToString(new_trace));
   }
